@@ -128,16 +128,20 @@ def run(ctx):
     # what is left is reported as correspondence loss
     cases_text = None
     by_sig = {}
+    explained = 0
     for cid, sig, desc in items:
+        if cid in summ.get("failed_cases", {}):
+            explained += 1      # the property predicate already fails on this very case
+            continue
         by_sig.setdefault(sig, (cid, desc))
-    if items and not summ["failures"]:
+    if by_sig:
         for sig, (cid, desc) in sorted(by_sig.items()):
             ctx.violation(sig, "model and implementation disagree on case %s (%d disagreeing cases in all); the theorems of "
                           "Properties/C10.v no longer speak about this code: %s" % (cid, mism, desc),
                           {"case": cid, "correspondence": desc}, found_input=False)
+    for cid, sig, desc in items[:6]:
+        print("note: model/implementation difference on case %s [%s] %s" % (cid, sig, desc[:300]))
     if ctx.replay:
-        for cid, sig, desc in items:
-            print("MODEL-DIFF", cid, sig, desc)
         print("model:", model.get("replay", "")[:3000])
         print("impl :", impl.get("replay", "")[:3000])
     ctx.coverage.update({
@@ -156,6 +160,7 @@ def run(ctx):
                 "the parser's AST. non-trivial = distinct document accepted by the importer with at least two signals",
         "distribution": summ["hist"],
         "model_agree_accepted": agree_ok, "model_agree_refused": agree_err, "model_mismatches": mism,
+        "model_mismatches_on_cases_failing_the_predicate": explained,
         "model_mismatch_signatures": sorted(by_sig)[:20],
         "property_predicate_failures": sorted(summ["failures"]),
         "samples": summ["samples"][:2] or [t[:600] for t in list(impl)[:2]],
